@@ -51,3 +51,21 @@ CONTRACTS.update({
 })
 
 MODELS = {'ReprCodeAttribute': RCA, 'ChannelItem': {'fields': CH_FIELDS, 'inv': []}}
+
+# ---------------------------------------------------------------------------------------------- frame -> data mapping (C08, C11)
+def _chs(*specs):
+    return {'cls': 'Attribute', 'fields': {'_value': {'list': list(specs)}}}
+
+
+CHN = lambda: {'cls': 'ChannelItem', 'fields': {'name': 'str', '_dataset_name': 'str?', '_cast_dtype': 'oneof[none,opq:dtype]'}}
+CONTRACTS.update({
+ 'FrameItem.channel_name_mapping': dict(
+    props=['C11', 'C08'], kind='get', self_fields={'channels': _chs(CHN(), CHN())}, params={}, returns='dict{}',
+    ensures=[('slot-order-follows-the-frames-channel-list', 'len(result) == (1 if self.channels._value[0].name == self.channels._value[1].name else 2)'),
+             ('each-channel-name-maps-to-its-dataset-name-else-its-own-name',
+              'result[self.channels._value[1].name] == (self.channels._value[1]._dataset_name if self.channels._value[1]._dataset_name is not None else self.channels._value[1].name)')]),
+ 'ChannelItem._compare_element_limit_vs_dimension': dict(
+    props=['C08'], params={'el': 'list[int]*2', 'dim': 'oneof[list[int]*1,list[int]*2,list[int]*3]'}, returns='bool',
+    ensures=[('element-limit-bounds-the-dimension-component-wise',
+              'result == (len(dim) <= 2 and dim[0] <= el[0] and (len(dim) < 2 or dim[1] <= el[1]))')]),
+})
